@@ -5,6 +5,16 @@
 //! `mkt e <trade|l1|book|candle|liq>` / `acc e <trade|bal|snap|ord|canc>` choose the kind of the item: every
 //! `DataKind` / `AccountEventKind` variant is an item of its link. Without a kind token the item is a public
 //! trade / alternates trade and balance snapshot by op position (the original protocol).
+//! Configuration shapes (`init n <on|off> <kinds> <links> <via>`, six tokens, family `cfg…`):
+//!   kinds  non-empty string over `s p f o` (spot / perpetual / future / option), cycled over the instruments in
+//!          build order: one exchange carries instruments of several kinds (derivatives add a settlement asset)
+//!   links  non-empty string over `H C M U`, cycled over the exchange LABELS: the execution link of the exchange
+//!          is healthy / closed (receiver dropped) / missing (`None` slot: tracked but not traded) / refusing
+//!   via    `proc` = `Engine::process`; `audit` = `barter::engine::process_with_audit`; `state` = items straight
+//!          into `EngineState::update_from_market` / `update_from_account`, notices into
+//!          `Engine::update_from_{market,account}_stream`
+//!   with `on` (and via != state) the scripted strategy EMITS one open request for the item's exchange after every
+//!   item (sent / failing according to the link); connectivity depends on none of this.
 use barter::{
     EngineEvent,
     engine::{
@@ -28,18 +38,27 @@ use barter_execution::{
     AccountEvent, AccountEventKind, AccountSnapshot,
     balance::{AssetBalance, Balance},
     order::{
-        Order, OrderKey, OrderKind, TimeInForce,
+        Order, OrderEvent, OrderKey, OrderKind, TimeInForce,
         id::{ClientOrderId, OrderId, StrategyId},
-        request::OrderResponseCancel,
+        request::{OrderResponseCancel, RequestOpen},
         state::{Cancelled, Open, OrderState},
     },
 };
 use barter_instrument::{
     Side, Underlying,
-    asset::AssetIndex,
+    asset::{Asset, AssetIndex},
     exchange::{ExchangeId, ExchangeIndex},
     index::IndexedInstruments,
-    instrument::{Instrument, InstrumentIndex},
+    instrument::{
+        Instrument, InstrumentIndex,
+        kind::{
+            InstrumentKind,
+            future::FutureContract,
+            option::{OptionContract, OptionExercise, OptionKind},
+            perpetual::PerpetualContract,
+        },
+        quote::InstrumentQuoteAsset,
+    },
 };
 use barter_integration::snapshot::Snapshot;
 use rust_decimal::Decimal;
@@ -73,6 +92,81 @@ fn build_instruments_wide(defs: &[(usize, &str, &str)]) -> IndexedInstruments {
         ));
     }
     builder.build()
+}
+
+/// As `build_instruments_wide`, instrument `k` (build order) of kind `kinds[k % len]`.
+fn build_instruments_kinds(defs: &[(usize, &str, &str)], kinds: &[char]) -> IndexedInstruments {
+    let mut builder = IndexedInstruments::builder();
+    for (k, (ex, base, quote)) in defs.iter().enumerate() {
+        let kind = match kinds[k % kinds.len()] {
+            's' => InstrumentKind::Spot,
+            'p' => InstrumentKind::Perpetual(PerpetualContract {
+                contract_size: Decimal::TEN,
+                settlement_asset: Asset::new_from_exchange(*quote),
+            }),
+            'f' => InstrumentKind::Future(FutureContract {
+                contract_size: Decimal::new(1, 2),
+                settlement_asset: Asset::new_from_exchange(*base),
+                expiry: time_ms(1_000_000),
+            }),
+            _ => InstrumentKind::Option(OptionContract {
+                contract_size: Decimal::ONE_HUNDRED,
+                settlement_asset: Asset::new_from_exchange("usdc"),
+                kind: OptionKind::Call,
+                exercise: OptionExercise::European,
+                expiry: time_ms(1_000_000),
+                strike: Decimal::ONE_HUNDRED,
+            }),
+        };
+        builder = builder.add_instrument(Instrument::new(
+            EXCH[*ex],
+            format!("{base}_{quote}_x{ex}"),
+            format!("{}{}", base.to_uppercase(), quote.to_uppercase()),
+            Underlying::new(Asset::new_from_exchange(*base), Asset::new_from_exchange(*quote)),
+            InstrumentQuoteAsset::UnderlyingQuote,
+            kind,
+            None,
+        ));
+    }
+    builder.build()
+}
+
+#[derive(Clone, Copy, PartialEq)]
+enum Via {
+    Proc,
+    Audit,
+    State,
+}
+
+/// `<on|off> <kinds> <links> <via>` of the six-token `init`
+fn parse_cfg(t: &[String]) -> Option<(TradingState, Vec<char>, Vec<Link>, Via)> {
+    let trading = match t[0].as_str() {
+        "on" => TradingState::Enabled,
+        "off" => TradingState::Disabled,
+        _ => return None,
+    };
+    let kinds: Vec<char> = t[1].chars().collect();
+    if kinds.is_empty() || !kinds.iter().all(|c| "spfo".contains(*c)) {
+        return None;
+    }
+    let links: Option<Vec<Link>> = t[2]
+        .chars()
+        .map(|c| match c {
+            'H' => Some(Link::Healthy),
+            'C' => Some(Link::Closed),
+            'M' => Some(Link::Missing),
+            'U' => Some(Link::Unhealthy),
+            _ => None,
+        })
+        .collect();
+    let links = links.filter(|l| !l.is_empty())?;
+    let via = match t[3].as_str() {
+        "proc" => Via::Proc,
+        "audit" => Via::Audit,
+        "state" => Via::State,
+        _ => return None,
+    };
+    Some((trading, kinds, links, via))
 }
 
 fn h(x: Health) -> &'static str {
@@ -110,13 +204,27 @@ fn run() {
         let mut built: Option<Built> = None;
         // instrument index / asset index of each exchange label, for routing items
         let mut n = 0usize;
+        let mut via = Via::Proc;
+        let mut emit = false;
         for (k, op) in case.ops.iter().enumerate() {
             lines.push("@".into());
             let arg: usize = op[1].parse().unwrap();
             if op[0] == "init" {
-                let trading = match op.get(2).map(|s| s.as_str()) {
-                    None => TradingState::Disabled,
-                    Some("on") if op.len() == 3 => TradingState::Enabled,
+                let cfg = if op.len() == 6 {
+                    match parse_cfg(&op[2..]) {
+                        Some(c) => Some(c),
+                        None => {
+                            lines.push("bad-op".into());
+                            continue;
+                        }
+                    }
+                } else {
+                    None
+                };
+                let trading = match (&cfg, op.get(2).map(|s| s.as_str())) {
+                    (Some(c), _) => c.0,
+                    (None, None) => TradingState::Disabled,
+                    (None, Some("on")) if op.len() == 3 => TradingState::Enabled,
                     _ => {
                         lines.push("bad-op".into());
                         continue;
@@ -134,8 +242,24 @@ fn run() {
                 let defs: Vec<(usize, &str, &str)> = (0..n)
                     .flat_map(|e| (0..=(e % 3)).map(move |j| (e, BASES[j], "usdt")))
                     .collect();
-                let instruments = build_instruments_wide(&defs);
-                built = Some(build_engine(&instruments, &[], trading));
+                via = Via::Proc;
+                emit = false;
+                let (instruments, links) = match &cfg {
+                    None => (build_instruments_wide(&defs), vec![]),
+                    Some((_, kinds, links, v)) => {
+                        via = *v;
+                        emit = trading == TradingState::Enabled && via != Via::State;
+                        let ii = build_instruments_kinds(&defs, kinds);
+                        // `build_engine` wants the links in ExchangeIndex order; the op gives them by label
+                        let by_index: Vec<Link> = ii
+                            .exchanges()
+                            .iter()
+                            .map(|e| links[EXCH.iter().position(|x| *x == e.value).unwrap() % links.len()])
+                            .collect();
+                        (ii, by_index)
+                    }
+                };
+                built = Some(build_engine(&instruments, &links, trading));
                 observe(&built.as_ref().unwrap().engine, lines);
                 continue;
             }
@@ -219,7 +343,44 @@ fn run() {
                 ("accre", _) => EngineEvent::Account(AccountStreamEvent::Reconnecting(EXCH[arg])),
                 (other, _) => panic!("bad op {other}"),
             };
-            let _audit = engine.process(event);
+            if emit && matches!(op[0].as_str(), "mkt" | "acc") {
+                let mut key = order_key(engine);
+                key.cid = ClientOrderId::new(format!("g{k}"));
+                engine.strategy.script.borrow_mut().push_back((
+                    vec![],
+                    vec![OrderEvent {
+                        key,
+                        state: RequestOpen {
+                            side: Side::Buy,
+                            price: Decimal::ONE_HUNDRED,
+                            quantity: Decimal::ONE,
+                            kind: OrderKind::Limit,
+                            time_in_force: TimeInForce::GoodUntilCancelled { post_only: false },
+                        },
+                    }],
+                ));
+            }
+            match (via, event) {
+                (Via::Proc, event) => {
+                    let _audit = engine.process(event);
+                }
+                (Via::Audit, event) => {
+                    let _tick = barter::engine::process_with_audit(engine, event);
+                }
+                (Via::State, EngineEvent::Market(MarketStreamEvent::Item(ev))) => {
+                    engine.state.update_from_market(&ev)
+                }
+                (Via::State, EngineEvent::Account(AccountStreamEvent::Item(ev))) => {
+                    let _exit = engine.state.update_from_account(&ev);
+                }
+                (Via::State, EngineEvent::Market(m)) => {
+                    let _out = engine.update_from_market_stream(&m);
+                }
+                (Via::State, EngineEvent::Account(a)) => {
+                    let _out = engine.update_from_account_stream(&a);
+                }
+                (Via::State, _) => unreachable!(),
+            }
             observe_labelled(engine, n, lines);
         }
     });
@@ -438,6 +599,50 @@ fn generate(seed: u64, n_cases: usize, tier: &str) {
                     }),
                     _ => out.line(item(&mut rng, m, e)),
                 }
+            }
+        }
+    }
+    // Separately seeded family `cfg…` (configuration-shape audit): instruments of several kinds on one exchange,
+    // execution links healthy / closed / missing / refusing per exchange, trading enabled with a strategy that
+    // emits after every item, and the three ways the public API lets a user feed the engine.
+    let mut rng = Rng::new(seed ^ 0xCF6_0014);
+    for _ in 0..(n_cases / 3).max(12) {
+        id += 1;
+        out.case(format!("cfg{id}"));
+        let n = if rng.chance(40) { rng.range(6, 10) } else { rng.range(1, 5) } as usize;
+        let kinds: String = (0..rng.range(1, 4)).map(|_| *rng.pick(&['s', 'p', 'f', 'o'])).collect();
+        let links: String = if rng.chance(20) {
+            "H".into()
+        } else {
+            (0..rng.range(1, n as i64)).map(|_| *rng.pick(&['H', 'M', 'M', 'C', 'U'])).collect()
+        };
+        let via = *rng.pick(&["proc", "proc", "audit", "state"]);
+        out.line(format!("init {n} {} {kinds} {links} {via}", if rng.chance(60) { "on" } else { "off" }));
+        let item = |rng: &mut Rng, market: bool, e: usize| -> String {
+            if market {
+                format!("mkt {e} {}", rng.pick(&mkinds))
+            } else {
+                format!("acc {e} {}", rng.pick(&akinds))
+            }
+        };
+        if rng.chance(60) {
+            let mut links: Vec<(bool, usize)> = (0..n).flat_map(|e| [(true, e), (false, e)]).collect();
+            for i in (1..links.len()).rev() {
+                links.swap(i, rng.below(i as u64 + 1) as usize);
+            }
+            for (m, e) in links {
+                out.line(item(&mut rng, m, e));
+            }
+        }
+        let len = rng.range(0, if tier == "thorough" { 60 } else { 30 });
+        let notice_pct = *rng.pick(&[5u64, 15, 40]);
+        for _ in 0..len {
+            let e = rng.below(n as u64) as usize;
+            if rng.chance(notice_pct) {
+                out.line(format!("{} {e}", rng.pick(&["mktre", "accre"])));
+            } else {
+                let m = rng.chance(50);
+                out.line(item(&mut rng, m, e));
             }
         }
     }
